@@ -112,6 +112,7 @@ package keeper
 //@ callsite SetClientState [stores-returned-client] dollar_chainName == chainName && dollar_clientState == callres("CheckHeaderAndUpdateState", 0) && callsok("CheckHeaderAndUpdateState")
 //@ callsite SetClientConsensusState [stores-at-header-height] dollar_chainName == chainName && height == headerHeight(header) && consensusState == callres("CheckHeaderAndUpdateState", 1)
 //@ ensures [reject-clean] err != nil && ncalls("CheckHeaderAndUpdateState") == 0 ==> xibc(ctx) == old(xibc(ctx))
+//@ ensures [update-takes-effect] err == nil ==> ncalls("CheckHeaderAndUpdateState") == 1 && callsok("CheckHeaderAndUpdateState") && ncalls("SetClientState") == 1 && ncalls("SetClientConsensusState") == 1
 //@ ensures [packet-state-kept] packetStateKept(old(xibc(ctx)), xibc(ctx))
 
 // verif:func (Keeper).HandleCreateClient
